@@ -337,7 +337,7 @@ func genPowPair(t *rapid.T) (D, D) {
 }
 
 func TestC18_Pow(t *testing.T) {
-	runRapid(t, 16000, 900000, func(t *rapid.T) {
+	runRapid(t, 40000, 900000, func(t *rapid.T) {
 		x, y := genPowPair(t)
 		c18.Run(t, c18Args{X: x, Y: y})
 	})
